@@ -35,7 +35,16 @@ def run(ctx, rep):
                  and (prog.resolve(fn.module, c.func) or '').startswith('scipy.stats.multivariate_normal.')]
         rets = [n for n in walk_no_nested(fn.node) if isinstance(n, ast.Return) and n.value is not None]
         if not calls:
-            rep.bad('D1.delegate', fn, fn.node.name, 'no multivariate_normal call', construct=f'multivariate_normal.{leaf}')
+            # the call may sit in a helper or be passed as a function value: which MVN function is evaluated is then not
+            # derived here (the space-kind analysis below still checks every MVN call it can see in the helpers)
+            mentions = [x for x in ast.walk(fn.node) if isinstance(x, ast.Attribute) and (prog.resolve(fn.module, x) or '').startswith('scipy.stats.multivariate_normal.')]
+            wrong = [x for x in mentions if not (prog.resolve(fn.module, x) or '').endswith('.' + leaf)]
+            if wrong:
+                rep.bad('D1.delegate', fn, wrong[0], f'{mname} hands {prog.resolve(fn.module, wrong[0])} to its helper, not multivariate_normal.{leaf}',
+                        construct=f'callee of {mname}')
+            else:
+                rep.undecided('D1.delegate', fn, fn.node.name, f'no direct multivariate_normal.{leaf} call in {mname} (delegated to a helper)',
+                              construct=f'multivariate_normal.{leaf}')
             continue
         for c in calls:
             nm = prog.resolve(fn.module, c.func)
